@@ -4,6 +4,7 @@ import (
 	"fmt"
 	"go/token"
 	"go/types"
+	"gverif/internal/load"
 
 	"golang.org/x/tools/go/ssa"
 )
@@ -322,7 +323,7 @@ func c17Flag(e *Env) {
 						}
 					}
 				case *ssa.Field:
-					if s, ok := x.X.Type().Underlying().(*types.Struct); ok && s.Field(x.Field).Name() == "stub" && isNamed(x.X.Type(), e.P.ModPath+"/internal/pkg/template", "Builder") {
+					if s, ok := x.X.Type().Underlying().(*types.Struct); ok && load.Current.BaselineField(x.X.Type(), s.Field(x.Field).Name()) == "stub" && isNamed(x.X.Type(), e.P.ModPath+"/internal/pkg/template", "Builder") {
 						reads++
 						if e.P.FuncKey(fn) != "(internal/pkg/template.Builder).Build" {
 							okReads = false
